@@ -271,3 +271,17 @@ TEXT["C06"] = dict(
                "subject of C11). Exploration: held on the cases and OS schedules observed.",
     level_note="trusts std::stable_sort as the reference and the sanitizers' reports; termination only as absence of a "
                "watchdog expiry")
+TEXT["C04"] = dict(
+    engine="dsched",
+    design_ref="DESIGN.md section 4, C04",
+    technique="runtime monitoring under a controlled scheduler (seeded schedules over every mutex/cv/atomic operation of the unmodified sorter and its thread pool, deadlock detection) with ASan, plus TSan/ASan on jittered real-thread runs; output monitor for identity permutation, order and exact LCP",
+    level_text="Small-threshold parameter sets bring the whole job graph of the parallel sample sort (sample, count, "
+               "distribute, nested big steps, sequential sample sort, multikey quicksort, insertion sort, work sharing, "
+               "sub-step counters that delete their step) down to inputs of 30-5000 strings, so each sort finishes in "
+               "milliseconds and thousands of distinct controlled schedules with 1-4 workers are explored per run, plain "
+               "and under ASan (any touch of a released step is a report). The same sorts run on real threads with "
+               "injected delays under TSan and ASan, and the public entry points with default parameters above 2^20 "
+               "strings. Every result is checked for identity permutation, unsigned byte order and exact LCPs. "
+               "Exploration: held on the inputs and schedules generated; sequentially consistent only in serial mode.",
+    level_note="trusts the shim's fidelity, ASan/TSan reports and the harness's memcmp/LCP reference; termination only as "
+               "absence of deadlock states / watchdog expiry")
